@@ -193,11 +193,24 @@ func cmdCheck(args []string) int {
 		}(i, k)
 	}
 	wg.Wait()
+	// A contract that can no longer be stated against the code (the function or a variable/field it
+	// names is gone, a signature changed) is an obligation that cannot be discharged: it is reported as a
+	// violation without a failing input. Engine failures and load errors stay errors (exit 2).
+	var drift []*Obligation
+	var kept []*job
 	for _, j := range jobs {
-		if j.res.Err != "" {
-			return fail(j.res.Key + ": " + j.res.Err)
+		if j.res.Err == "" {
+			kept = append(kept, j)
+			continue
 		}
+		if strings.HasPrefix(j.res.Err, "contract error") || strings.HasPrefix(j.res.Err, "function under contract not found") || strings.HasPrefix(j.res.Err, "function has no body") {
+			drift = append(drift, &Obligation{Name: j.res.Key + "#contract@1", Func: j.res.Key, Kind: "contract", Status: "undischargeable",
+				Solver: "-", Model: j.res.Err, Where: "-", Detail: "contract no longer applies to the code: " + j.res.Err})
+			continue
+		}
+		return fail(j.res.Key + ": " + j.res.Err)
 	}
+	jobs = kept
 	// vacuity guards: preconditions + axioms of each function must not be contradictory
 	{
 		var wgv sync.WaitGroup
@@ -252,6 +265,7 @@ func cmdCheck(args []string) int {
 		lemmaObls = append(lemmaObls, os2...)
 	}
 	all = append(all, lemmaObls...)
+	all = append(all, drift...)
 	total = len(all)
 	if total == 0 {
 		return fail("zero obligations generated (vacuous check)")
